@@ -220,7 +220,7 @@ def eval_case(case, drv):
     # model
     import xgcm.padding as xp
     conn_axes = xp._get_all_connection_axes({"face": fg.fc_arg(tbl)["face"]}, "face")
-    pad_axes = list(set(conn_axes + [ax]))
+    pad_axes = [a for a in ("X", "Y") if a in (conn_axes + [ax])]     # the grid's own axis order (not a set's)
     cdims = ("xg", "yc") if a == 0 else ("xc", "yg")
     pdims = ("xc", "yg") if a == 0 else ("xg", "yc")
     data4 = fg.canon_faces(comp, *cdims)
